@@ -9,6 +9,7 @@ package main
 
 import (
 	"bytes"
+	"crypto/ed25519"
 	"encoding/json"
 	"fmt"
 	"math/rand"
@@ -426,7 +427,71 @@ func checkC01E2E(c *Ctx) {
 			p3, _ := acc.Dial()
 			defer p3.Close()
 			expectRefused("new-connection", p3)
+			// 5. a peer without the setup code tries to plant its own key, then verifies with it: still refused
+			for v := 0; v < 12; v++ {
+				pf, err := acc.Dial()
+				if err != nil {
+					break
+				}
+				before := entities()
+				intruder := c01Forge(r, pf.Post(), v)
+				pf.Close()
+				if after := entities(); after != before {
+					c.Violate("a peer that does not know the setup code got a pairing stored", id, fmt.Sprintf("forged pair-setup, variant %d", v), before, after)
+				}
+				pv, err := acc.Dial()
+				if err != nil {
+					break
+				}
+				if vr := refPairVerify(r, pv.Post(), intruder, nil); vr.Shared != nil {
+					pv.Upgrade(vr.Shared)
+					if m, err := pv.Do("GET", "/accessories", "", nil); err == nil && m.Status == 200 {
+						c.Violate("a peer that does not know the setup code obtained protected access (forged pairing, then pair-verify with its own key)", id,
+							fmt.Sprintf("forged pair-setup, variant %d", v), "refused", "200 "+trunc(string(m.Body), 80))
+					}
+				} else {
+					expectRefused(fmt.Sprintf("intruder-%d", v), pv)
+				}
+				pv.Close()
+				c.Count(fmt.Sprint("e2e:forge:", v), true, "e2e:forge")
+			}
 			c.Trace()
 		}()
 	}
+}
+
+// c01Forge: a peer that does not know the setup code tries the known ways of getting a key stored without a proof
+// (pair-setup with A ≡ 0 mod N and the proof anybody can compute from public values, then the key exchange sealed under
+// the key derived from an empty / all-zero session key), and returns the identity it tried to plant.
+func c01Forge(r *rand.Rand, post postFn, variant int) *refIdentity {
+	id := newRefIdentity(r, fmt.Sprintf("intruder-%d", variant))
+	st, body, err := post("/pair-setup", tlvMsg(tlvOp{tState, b1(1)}, tlvOp{tMethod, b1(0)}))
+	if err != nil || st != 200 {
+		return id
+	}
+	items, _ := refTlvParse(body)
+	salt, B := tlvGet(items, tSalt), tlvGet(items, tPubKey)
+	A := [][]byte{{0}, refSrpN.Bytes(), new(bigInt).Lsh(refSrpN, 1).Bytes(), nil}[variant%4]
+	hn := new(bigInt).SetBytes(refH(refSrpN.Bytes()))
+	hg := new(bigInt).SetBytes(refH(refSrpG.Bytes()))
+	proof := refH(new(bigInt).Xor(hn, hg).Bytes(), refH([]byte("Pair-Setup")), salt, new(bigInt).SetBytes(A).Bytes(), B, nil)
+	m3 := []tlvOp{{tState, b1(3)}}
+	if A != nil {
+		m3 = append(m3, tlvOp{tPubKey, A})
+	}
+	post("/pair-setup", tlvMsg(append(m3, tlvOp{tProof, proof})...))
+	// the key exchange message, sealed under what the accessory holds when no session key was ever computed
+	var k []byte // session key as the accessory's signature check sees it: empty …
+	if variant/4 == 2 {
+		k = make([]byte, 64) // … or all zero
+	}
+	encKey := refHKDF(k, "Pair-Setup-Encrypt-Salt", "Pair-Setup-Encrypt-Info")
+	if variant/4 == 1 {
+		encKey = make([]byte, 32) // the encryption key field that was never set
+	}
+	x := refHKDF(k, "Pair-Setup-Controller-Sign-Salt", "Pair-Setup-Controller-Sign-Info")
+	info := append(append(append([]byte{}, x...), []byte(id.Name)...), id.Pub...)
+	sub := tlvMsg(tlvOp{tID, []byte(id.Name)}, tlvOp{tPubKey, id.Pub}, tlvOp{tSig, ed25519.Sign(id.Priv, info)})
+	post("/pair-setup", tlvMsg(tlvOp{tState, b1(5)}, tlvOp{tEnc, refSeal(encKey, []byte("PS-Msg05"), sub, nil)}))
+	return id
 }
